@@ -43,6 +43,27 @@ where
     Op: Clone + Send + Sync,
     K: Hash + Eq + Send,
 {
+    bfs_classified(init, enabled, step, key, invariant, |m| m.to_string(), max_depth, max_states, threads)
+}
+
+/// As `bfs`, keeping one (the first, i.e. shortest) violation per *class* of explanation
+/// (`classify` maps an explanation to its class, e.g. the law it names) and at most 256 classes.
+pub fn bfs_classified<S, Op, K>(
+    init: S,
+    enabled: impl Fn(&S) -> Vec<Op> + Sync,
+    step: impl Fn(&S, &Op) -> Result<S, String> + Sync,
+    key: impl Fn(&S) -> K + Sync,
+    invariant: impl Fn(&S) -> Result<(), String> + Sync,
+    classify: impl Fn(&str) -> String,
+    max_depth: usize,
+    max_states: u64,
+    threads: usize,
+) -> SearchStats<Op>
+where
+    S: Send + Sync,
+    Op: Clone + Send + Sync,
+    K: Hash + Eq + Send,
+{
     let mut seen: HashSet<K> = HashSet::new();
     let mut stats = SearchStats {
         states: 0,
@@ -97,7 +118,8 @@ where
                         }
                     }
                     Err(v) => {
-                        if stats.violations.len() < 32 && !stats.violations.iter().any(|x| x.1 == v.1) {
+                        let class = classify(&v.1);
+                        if stats.violations.len() < 256 && !stats.violations.iter().any(|x| classify(&x.1) == class) {
                             stats.violations.push(v);
                         }
                     }
